@@ -298,3 +298,34 @@ func allSPD(thorough bool) []*objective {
 	}
 	return out
 }
+
+// wiggleNaN is f(x) = -sin(w x)/w (w = 2.45 pi) from x = 0, undefined (NaN) for
+// x > 0.9: a wiggly objective whose trial points can fall outside its domain.
+// A line search must never accept an increase because of the NaN trials.
+func wiggleNaN() *objective {
+	const w = 2.45 * math.Pi
+	return &objective{name: "wiggle-NaN-beyond-0.9", kind: "nanregion", dim: 1, x0: []float64{0}, mk: func() *objInst {
+		return &objInst{
+			f: func(x []float64) float64 {
+				if x[0] > 0.9 {
+					return math.NaN()
+				}
+				return -math.Sin(w*x[0]) / w
+			},
+			g: func(g, x []float64) {
+				if x[0] > 0.9 {
+					g[0] = math.NaN()
+					return
+				}
+				g[0] = -math.Cos(w * x[0])
+			},
+			h: func(h *mat.SymDense, x []float64) {
+				if x[0] > 0.9 {
+					h.SetSym(0, 0, math.NaN())
+					return
+				}
+				h.SetSym(0, 0, w*math.Sin(w*x[0]))
+			},
+		}
+	}}
+}
